@@ -67,6 +67,12 @@ func init() {
 		}
 		return 8
 	}, runKMountC13)
+	addKMount("C05", func(tier string) int {
+		if tier == "thorough" {
+			return 96
+		}
+		return 8
+	}, runKMountC05)
 	addKMount("C07", func(tier string) int {
 		if tier == "thorough" {
 			return 96
@@ -1250,7 +1256,7 @@ func runKMountC07(c *core.Case, k int) {
 
 // queryStringOrExec runs a statement that may or may not return a row.
 func (s *sqlDB) queryStringOrExec(q string) (string, error) {
-	if strings.HasPrefix(strings.ToUpper(q), "PRAGMA") {
+	if up := strings.ToUpper(q); strings.HasPrefix(up, "PRAGMA") && !strings.Contains(up, "WAL_CHECKPOINT") {
 		v, err := s.queryString(q)
 		if err != nil && strings.Contains(err.Error(), "no rows") {
 			return "", nil
@@ -1498,4 +1504,286 @@ func runKMountC13(c *core.Case, k int) {
 	if k < 2 {
 		c.Sample(detail(nil))
 	}
+}
+
+// runKMountC05: crash points under REAL SQLite. The primary is mounted through
+// the kernel and real SQLite runs statements on it; while a recorded statement
+// runs, every OS-layer call LiteFS makes and every database page write that
+// reaches it (SQLite is blocked in that very system call) copies the data
+// directory: exactly what a process death at that instant leaves. Every image
+// must reopen to the position before or after the statement with that
+// position's image (rebuilt independently from the transaction files), leave
+// no hot journal, and accept new commits.
+func runKMountC05(c *core.Case, k int) {
+	if ok, why := kmountAvailable(); !ok {
+		c.Count("kmount_unavailable", 1)
+		if k == 0 {
+			c.Sample(map[string]any{"kmount": "unavailable", "why": why})
+		}
+		return
+	}
+	c.Count("kmount_cases", 1)
+	mode := []string{"delete", "wal", "truncate", "persist"}[k%4]
+	ps := []int{1024, 4096, 512, 2048}[c.Rng.IntN(4)]
+	autoVac := []int{0, 1, 2}[c.Rng.IntN(3)]
+	smallCache := c.Rng.IntN(2) == 0
+	dir := filepath.Join(c.Dir, "data")
+	rec := &crashRecorder{src: dir, base: filepath.Join(c.Dir, "imgs")}
+	n, err := drv.NewNode(drv.Config{Dir: dir, Candidate: true, KernelMount: true,
+		Leaser:  litefs.NewStaticLeaser(true, "localhost", "http://127.0.0.1:1"),
+		PreOpen: func(n *drv.Node) { rec.attach(n) }})
+	if err != nil {
+		c.Inconclusive("mount: " + err.Error())
+		return
+	}
+	closed := false
+	defer func() {
+		if !closed {
+			n.Close()
+		}
+	}()
+	if !n.WaitReady(10 * time.Second) {
+		c.Inconclusive("node not ready")
+		return
+	}
+	var hist []string
+	detail := map[string]any{"driver": "B (kernel mount + real SQLite)", "journal_mode": mode, "page_size": ps, "auto_vacuum": autoVac, "small_cache": smallCache}
+	proc, err := startSQLProc()
+	if err != nil {
+		c.Inconclusive("SQL child: " + err.Error())
+		return
+	}
+	defer proc.stop()
+	w, err := proc.open(filepath.Join(n.MountDir(), "db"), false)
+	if err != nil {
+		c.Violate("C05/kmount/open", err.Error(), detail)
+		return
+	}
+	chain := &ltxChain{dir: filepath.Join(mon.DBDir(n, "db"), "ltx")}
+	exec := func(q string) bool {
+		hist = append(hist, q)
+		detail["sql_tail"] = hist
+		if _, err := w.queryStringOrExec(q); err != nil {
+			healthViolations(c, n, q, detail)
+			if !c.Violated() {
+				c.Violate("C05/kmount/sql-error", fmt.Sprintf("%q: %v", q, err), detail)
+			}
+			return false
+		}
+		if _, prob := chain.advance(); prob != "" {
+			c.Violate("C05/kmount/ltx-chain", "after "+q+": "+prob, detail)
+			return false
+		}
+		return true
+	}
+	for _, q := range []string{fmt.Sprintf("PRAGMA page_size=%d", ps), fmt.Sprintf("PRAGMA auto_vacuum=%d", autoVac), "PRAGMA journal_mode=" + mode} {
+		if !exec(q) {
+			return
+		}
+	}
+	if smallCache {
+		_ = w.exec("PRAGMA cache_size=5")
+	}
+	if !exec("CREATE TABLE t0(id INTEGER PRIMARY KEY, k INTEGER, v BLOB)") {
+		return
+	}
+	for i := 1; i <= 6; i++ {
+		if !exec(fmt.Sprintf("INSERT INTO t0 VALUES(%d,%d,randomblob(%d))", i, i, []int{100, 3000, 20000, 500}[c.Rng.IntN(4)])) {
+			return
+		}
+	}
+	led := newLedger()
+	type recorded struct {
+		q             string
+		before, after mon.PosKey
+		imgs          []crashImage
+	}
+	var runs []recorded
+	nextID := 100
+	steps := 3
+	if c.Tier == "thorough" {
+		steps = 5
+	}
+	for step := 0; step < steps; step++ {
+		nextID++
+		q := ""
+		switch c.Rng.IntN(6) {
+		case 0:
+			q = fmt.Sprintf("INSERT INTO t0 VALUES(%d,%d,randomblob(%d))", nextID, step, 20000+c.Rng.IntN(50000))
+		case 1:
+			q = fmt.Sprintf("UPDATE t0 SET v=randomblob(%d), k=k+1 WHERE id%%2=%d", 50+c.Rng.IntN(4000), c.Rng.IntN(2))
+		case 2:
+			q = fmt.Sprintf("DELETE FROM t0 WHERE id%%3=%d", c.Rng.IntN(3))
+		case 3:
+			q = fmt.Sprintf("INSERT INTO t0 SELECT id+%d, k, randomblob(%d) FROM t0 LIMIT %d", 100000*(step+1), 200+c.Rng.IntN(3000), 3+c.Rng.IntN(12))
+		case 4:
+			if mode == "wal" {
+				q = fmt.Sprintf("PRAGMA wal_checkpoint(%s)", pick(c, []string{"PASSIVE", "FULL", "RESTART", "TRUNCATE"}))
+			} else {
+				q = fmt.Sprintf("INSERT INTO t0 VALUES(%d,%d,zeroblob(%d))", nextID, step, c.Rng.IntN(9000))
+			}
+		default:
+			q = fmt.Sprintf("INSERT INTO t0 VALUES(%d,%d,randomblob(%d))", nextID, step, 10+c.Rng.IntN(900))
+		}
+		before := chain.pos
+		if img := chain.imageAt(before); img != nil {
+			led.put("db", before, img)
+		}
+		rec.mu.Lock()
+		rec.imgs, rec.finalized = nil, false
+		rec.base = filepath.Join(c.Dir, "imgs", fmt.Sprintf("s%d", step)) // image directories are numbered per recording
+		rec.mu.Unlock()
+		rec.setEnabled(true)
+		ok := exec(q)
+		rec.setFinalized()
+		rec.snap("done")
+		rec.setEnabled(false)
+		if !ok {
+			return
+		}
+		after := chain.pos
+		led.put("db", after, chain.img.Clone())
+		rec.mu.Lock()
+		imgs := rec.imgs
+		rec.imgs = nil
+		rec.mu.Unlock()
+		if after.TXID > before.TXID+1 {
+			// more than one transaction: images in between belong to neither end
+			for _, im := range imgs {
+				_ = os.RemoveAll(im.Dir)
+			}
+			c.Count("kmount_multi_tx_statements_skipped", 1)
+			continue
+		}
+		// keep at most 40 images per statement, spread evenly (always the last)
+		if len(imgs) > 40 {
+			var keep []crashImage
+			for i, im := range imgs {
+				if i%((len(imgs)+39)/40) == 0 || i == len(imgs)-1 {
+					keep = append(keep, im)
+				} else {
+					_ = os.RemoveAll(im.Dir)
+				}
+			}
+			imgs = keep
+		}
+		runs = append(runs, recorded{q, before, after, imgs})
+		c.Count("kmount_crash_statements", 1)
+	}
+	// the live node is no longer needed: judge the images
+	w.close()
+	proc.stop()
+	n.Close()
+	closed = true
+	for _, r := range runs {
+		d := map[string]any{"statement": r.q, "before": r.before.String(), "after": r.after.String()}
+		for k, v := range detail {
+			d[k] = v
+		}
+		for _, img := range r.imgs {
+			if why := unjournaledFreePages(img.Dir, "db", uint32(ps), led, r.before); why != "" {
+				// a known situation (see known_findings.json): decided separately so
+				// that every other reopen failure is still reported under its own name
+				c.Count("kmount_images_with_unjournaled_free_pages", 1)
+				nn, err := drv.NewNode(drv.Config{Dir: img.Dir, Candidate: true, Leaser: litefs.NewStaticLeaser(true, "localhost", "http://127.0.0.1:1")})
+				if err != nil {
+					d2 := map[string]any{"crash_point": img.Label, "analysis": why}
+					for k, v := range d {
+						d2[k] = v
+					}
+					c.Violate("C05/kmount/reopen-failed(unjournaled-free-page-overwrite)", fmt.Sprintf("restart after a crash before %q failed: %v; %s", img.Label, err, why), d2)
+					_ = os.RemoveAll(img.Dir)
+					continue
+				}
+				nn.Close()
+			}
+			side := judgeCrashImage(c, img, "db", r.before, r.after, led, uint32(ps), "", d)
+			_ = os.RemoveAll(img.Dir)
+			if c.Violated() {
+				return
+			}
+			if side != "" {
+				c.Count("recovered_"+side, 1)
+				c.Count("kmount_crash_images_judged", 1)
+			}
+			c.Distinct(fmt.Sprintf("kmount/c05/%s/ps%d/%s/%s", mode, ps, labelClass(img.Label), side))
+		}
+	}
+	if k < 2 {
+		c.Sample(map[string]any{"detail": detail, "statements_recorded": len(runs)})
+	}
+}
+
+// freeListLeaves parses the SQLite free list of an image and returns its leaf
+// pages (trunk pages are ordinary journaled pages).
+func freeListLeaves(img *ref.Image) map[uint32]bool {
+	out := map[uint32]bool{}
+	if img == nil || img.PageN == 0 {
+		return out
+	}
+	p1 := img.Page(1)
+	if len(p1) < 40 {
+		return out
+	}
+	be := func(b []byte) uint32 { return uint32(b[0])<<24 | uint32(b[1])<<16 | uint32(b[2])<<8 | uint32(b[3]) }
+	trunk := be(p1[32:36])
+	for guard := 0; trunk != 0 && trunk <= img.PageN && guard < 100000; guard++ {
+		t := img.Page(trunk)
+		n := be(t[4:8])
+		for i := uint32(0); i < n && 8+4*i+4 <= uint32(len(t)); i++ {
+			out[be(t[8+4*i:])] = true
+		}
+		trunk = be(t[0:4])
+	}
+	return out
+}
+
+// unjournaledFreePages analyses a crash image taken in a rollback-journal
+// mode: it plays the hot journal back with the reference rules and compares
+// the result with the pre-transaction image. If the only differences are
+// free-list leaf pages of the pre-transaction image that have no record in the
+// journal, it returns a description: SQLite does not journal such pages (their
+// content is irrelevant to it) and may overwrite them during the transaction,
+// so no rollback can restore their old bytes.
+func unjournaledFreePages(dir, name string, ps uint32, led *ledger, before mon.PosKey) string {
+	want, ok := led.get(name, before)
+	if !ok || want == nil || want.PageN == 0 {
+		return ""
+	}
+	dbb, err := os.ReadFile(filepath.Join(dir, "dbs", name, "database"))
+	if err != nil {
+		return ""
+	}
+	jb, _ := os.ReadFile(filepath.Join(dir, "dbs", name, "journal"))
+	pb := ref.PlayJournal(jb, ps)
+	if !pb.Valid {
+		return ""
+	}
+	got := ref.ImageFromBytes(ps, dbb)
+	for p, b := range pb.Pages {
+		got.Set(p, b)
+	}
+	got.Truncate(pb.OrigPages)
+	got.PageN = pb.OrigPages
+	if got.PageN != want.PageN {
+		return ""
+	}
+	leaves := freeListLeaves(want)
+	var diff, other []uint32
+	for p := uint32(1); p <= want.PageN; p++ {
+		if p == ref.LockPgno(ps) {
+			continue
+		}
+		if string(got.Page(p)) != string(want.Page(p)) {
+			if _, journaled := pb.Pages[p]; leaves[p] && !journaled {
+				diff = append(diff, p)
+			} else {
+				other = append(other, p)
+			}
+		}
+	}
+	if len(diff) == 0 || len(other) > 0 {
+		return ""
+	}
+	return fmt.Sprintf("after playing the hot journal back the database equals the pre-transaction image except for pages %v, which are free-list leaf pages of that image and have no journal record (SQLite does not journal them and overwrote them)", diff)
 }
